@@ -11,7 +11,7 @@
 From Coq Require Import ZArith List Bool.
 From Model Require Import Bits Word Instr Sim IsaWire Load.
 From Spec Require Import IsaSpec.
-From Proofs Require Import SimRefinePrims SimRefineExec SimRefineStep.
+From Proofs Require Import SimNoPanic SimRefinePrims SimRefineExec SimRefineStep SimWf.
 Import ListNotations.
 Open Scope Z_scope.
 
@@ -41,6 +41,22 @@ Theorem C08_entry_refines : forall e vect prio s,
   /\ sout_of r <> None /\ s_flags s' = s_flags s.
 Proof. exact do_entry_refines. Qed.
 Print Assumptions C08_entry_refines.
+
+(* 16-bit well-formedness (what the Rust types u16/u8 guarantee: every register, the PC, the PSR,
+   the saved SP and every memory word hold 16-bit values, keyboard bytes are bytes) is preserved by
+   every step, in every mode *)
+Theorem C08_wf_preserved : forall e s, WF s -> WF (fst (step_in e s)).
+Proof. exact wf_step_in. Qed.
+Print Assumptions C08_wf_preserved.
+
+(* hence the refinement holds for runs of ANY length: the sequence of outcomes and the final
+   architectural state of the model are those of the reference semantics *)
+Theorem C08_run_refines : forall es s, fl_strict (s_flags s) = false -> WF s ->
+  let '(s', outs) := run_n es s in
+  let '(a', souts) := spec_run es (abs s) in
+  a' = abs s' /\ Forall2 out_match outs souts.
+Proof. exact run_refines. Qed.
+Print Assumptions C08_run_refines.
 
 (* the hypotheses are met by a fresh machine (and by every state the harness generates) *)
 Example C08_hypotheses_satisfiable :
